@@ -203,10 +203,28 @@ def _config(arg):
                 for a in range(n):
                     owner[idx[a]:idx[a + 1]] = a
                 res.count(len(big))
-                got = np.asarray(bw(big, atcoords, atnums, idx), dtype=float)
+                try:
+                    got = np.asarray(bw(big, atcoords, atnums, idx), dtype=float)
+                except Exception as exc:
+                    res.violation(f"__call__:raised:{type(exc).__name__}", f"__call__ on {len(big)} points raised "
+                                  f"{type(exc).__name__}: {exc}", dict(case, segmentation=sname, big=True))
+                    continue
                 res.nontrivial(n=len(big))
                 _compare(res, "__call__", key, got, Wb[owner, np.arange(len(big))], dict(case, segmentation=sname, big=True), None, sname)
         # ---- rigid motions and relabelling (library vs itself)
+        try:
+            _motions(res, bw, pts, atcoords, atnums, n, case, full)
+        except Exception as exc:
+            res.violation(f"generate_weights:raised:{type(exc).__name__}",
+                          f"generate_weights raised {type(exc).__name__}: {exc} during the rigid-motion / relabelling checks", case)
+    if not all(np.array_equal(x, y) for x, y in zip(snap, (pts, atcoords, atnums))):
+        res.violation("argument-modified", "points, coordinates or atomic numbers were modified", case)
+    res.sample(dict(case, npoints=len(pts)))
+    return res.as_dict()
+
+
+def _motions(res, bw, pts, atcoords, atnums, n, case, full):
+    if True:
         if full:
             base = np.array([bw.generate_weights(pts, atcoords, atnums, select=a) for a in range(n)])
             for ir, rot in enumerate(rotations()):
@@ -228,10 +246,6 @@ def _config(arg):
                     res.violation("not-invariant-under-relabelling", f"weights change under the atom permutation {perm.tolist()}", case)
                     break
                 res.nontrivial()
-    if not all(np.array_equal(x, y) for x, y in zip(snap, (pts, atcoords, atnums))):
-        res.violation("argument-modified", "points, coordinates or atomic numbers were modified", case)
-    res.sample(dict(case, npoints=len(pts)))
-    return res.as_dict()
 
 
 def _compare(res, rname, key, got, want, case, atom, seg):
@@ -328,7 +342,7 @@ def run(ctx):
         if len(ctx.samples) > 8:
             res["samples"] = []
         ctx.merge(res)
-    hirshfeld(ctx)
+    ctx.guarded("hirshfeld", hirshfeld, ctx)
     ctx.cov["configurations"] = len(jobs)
     ctx.cov["elements"] = list(ELEMENTS)
     ctx.exhaustive = True
